@@ -171,13 +171,14 @@ def tok_poscar(text):
 
 # ---------------- systems --------------------------------------------------------------------------------------------------
 def make_case(rng, i):
-    tri = i % 2 == 1
+    # every option is drawn independently: modular patterns (origin 0 exactly when the scaled columns were written) hid a seeded change
+    tri = bool(rng.random() < .5)
     a = [float(rng.integers(2, 7)), 0.0, 0.0]
     b = [float(rng.integers(-4, 5)) / 2 if tri else 0.0, float(rng.integers(2, 7)), 0.0]
     c = [float(rng.integers(-4, 5)) / 4 if tri else 0.0, float(rng.integers(-4, 5)) / 2 if tri else 0.0, float(rng.integers(2, 7))]
-    o = [float(x) / 2 for x in rng.integers(-6, 7, 3)] if i % 3 else [0.0, 0.0, 0.0]
+    o = [float(x) / 2 for x in rng.integers(-6, 7, 3)] if rng.random() < .65 else [0.0, 0.0, 0.0]
     n = int(rng.integers(1, 7))
-    place = ['inside', 'outside', 'face'][i % 3]
+    place = ['inside', 'outside', 'face'][int(rng.integers(0, 3))]
     rel = rng.integers(0, 8, (n, 3)) / 8.0
     if place == 'outside':
         rel = rel + rng.integers(-2, 3, (n, 3))
@@ -186,11 +187,11 @@ def make_case(rng, i):
     V = np.array([a, b, c])
     pos = rel @ V + np.array(o)
     atype = rng.integers(1, 4, n)
-    if i % 5 == 0:
+    if rng.random() < .2:
         atype[:] = 3 if n > 1 else 1
     d = {'a': a, 'b': b, 'c': c, 'o': o, 'pos': pos.tolist(), 'rel': rel.tolist(), 'atype': atype.tolist(),
-         'pbc': [bool(x) for x in rng.integers(0, 2, 3)] if i % 4 else [True, True, True],
-         'vel': (rng.integers(-16, 17, (n, 3)) / 8.0).tolist() if i % 2 == 0 else None,
+         'pbc': [bool(x) for x in rng.integers(0, 2, 3)] if rng.random() < .75 else [True, True, True],
+         'vel': (rng.integers(-16, 17, (n, 3)) / 8.0).tolist() if rng.random() < .5 else None,
          'q': (rng.integers(-8, 9, n) / 8.0).tolist(), 'mol': rng.integers(1, 4, n).tolist(),
          'diameter': (rng.integers(1, 9, n) / 8.0).tolist(), 'density': (rng.integers(8, 80, n) / 8.0).tolist(),
          'omega': (rng.integers(-16, 17, (n, 3)) / 8.0).tolist()}
@@ -241,14 +242,15 @@ def run(ctx):
     ctx.trusted = ['TLC', 'the tokenizers in this driver', 'numericalunits constants for the symbolic units of the LAMMPS manual']
     rng = np.random.default_rng(ctx.seed)
     recs = []
-    ncase = 360 if quick else 3000
+    ncase = 900 if quick else 6000
     ffs = ['%.13f', '%.6f', '%.3f', '%.5e']
     try:
         for i in range(ncase):
             d = make_case(rng, i)
             units = list(UNITS)[int(rng.integers(0, len(UNITS)))]
             # working units: half of the runs in the style's own units, half crossed
-            if i % 2:
+            ang = bool(rng.random() < .5)
+            if ang:
                 uc.reset_units(length='angstrom', mass='amu', energy='eV', charge='e')
             else:
                 uc.reset_units(seed=1000 + i)
@@ -266,7 +268,7 @@ def run(ctx):
             # dump file
             dunits = units
             try:
-                scaled = i % 3 == 0
+                scaled = bool(rng.random() < .4)
                 names = ['atom_id', 'atype', 'spos' if scaled else 'pos'] + (['velocity'] if d['vel'] is not None else []) + \
                         (['charge'] if UNITS[units]['charge'] is not None else [])
                 sd = build_system(am, nu, d, units)
@@ -277,10 +279,10 @@ def run(ctx):
             except Exception as e:
                 ctx.violation('dump file writer raised %s [%s]' % (excname(e), dunits), repr(e)[:300])
             # POSCAR (fully periodic, origin 0: the format has neither flags nor origin)
-            if not any(d['o']) and i % 2:      # working units based on angstrom (POSCAR is an angstrom format)
+            if not any(d['o']) and ang:      # working units based on angstrom (POSCAR is an angstrom format)
                 try:
-                    sc = [1.0, 2.0, 0.5][(i // 3) % 3]
-                    mode = 'direct' if (i // 6) % 2 else 'cartesian'
+                    sc = [1.0, 2.0, 0.5][int(rng.integers(0, 3))]
+                    mode = 'direct' if rng.random() < .5 else 'cartesian'
                     sp = build_system(am, nu, dict(d, pbc=[True, True, True]), 'metal')
                     uc_l = factor(nu, 'length', 'metal')
                     text = sp.dump('poscar', coordstyle=mode, box_scale=sc, float_format='%.6f')
